@@ -10,7 +10,7 @@
    budget is (node limit, answers of the deadline callback at the successive checkpoints) and is
    universally quantified everywhere: `unlimited` is the plain operation, anything else its try_* twin. *)
 Require Import KV.Sdd.Model KV.Sdd.Sem KV.Sdd.Spec KV.Sdd.History.
-Require Import KV.Sdd.Decomp KV.Sdd.Hoare KV.Sdd.MainProofs KV.Sdd.WmcProofs KV.Sdd.DecompHist KV.Sdd.BudgetSim KV.Sdd.CubeProofs KV.Sdd.CubeHist KV.Sdd.SafeProofs KV.Sdd.SafeHist KV.Sdd.Reduced KV.Sdd.CanonProofs.
+Require Import KV.Sdd.Decomp KV.Sdd.Hoare KV.Sdd.MainProofs KV.Sdd.WmcProofs KV.Sdd.DecompHist KV.Sdd.BudgetSim KV.Sdd.CubeProofs KV.Sdd.CubeHist KV.Sdd.SafeProofs KV.Sdd.SafeHist KV.Sdd.Reduced KV.Sdd.CanonProofs KV.Sdd.RedFinal.
 Require Import QArith.
 
 (* (1) apply is exact: whatever the budget and the fuel, IF it returns a handle, the handle denotes
@@ -271,11 +271,7 @@ Print Assumptions C07_canonical_simple_partial.
    it - and every Decision node is {(literal x, s1), (literal not-x, s2)} sorted, compressed (s1 <> s2), not trimmable).
    For such a manager two handles with the same denotation are EQUAL: Darwiche's canonicity argument specialised to
    right-linear vtrees, by induction on the handles (CanonProofs.v).
-   PARTIAL: that every reachable manager passes `reduced_ok` is NOT proved - the missing lemma is exactly
-       "reduced_ok is preserved by literal / apply / negate / exactly_one under every budget"
-   (a fourth Hoare pass that needs, at the allocation site of unique_d, the semantic partition invariant and the
-   positional invariant together to know that compress either merges the two complementary literals into TRUE or leaves
-   two distinct subs).  The check evaluates `reduced_ok` on the final model manager of every generated history. *)
+   Every reachable manager passes `reduced_ok`: C07_reduced_reachable below; the unconditional theorem is C07_canonical. *)
 Theorem C07_canonical_reduced :
   forall m a b,
     MInv m -> SInv m -> SInvP m -> reduced_ok m = true ->
@@ -283,12 +279,39 @@ Theorem C07_canonical_reduced :
 Proof. exact canonical_reduced. Qed.
 Print Assumptions C07_canonical_reduced.
 
+(* (9) CANONICITY, unconditional for reachable managers.  Every manager reachable by a history (any number of
+   variables, registered in any order and at any time; literal / and / or / negate / exactly_one, each plain or under an
+   arbitrary budget, interrupted anywhere; literals over registered variables; fuel above 4|history|+3 so that the model
+   never runs out of fuel) passes the reducedness check, and therefore equal functions get equal handles:
+     - any two valid handles of the final manager with the same denotation are equal;
+     - any two slots whose formulas denote the same Boolean function hold the same handle.
+   Proof of the missing lemma (fourth Hoare pass, RedProofs.v / RedHist.v: the positional invariant strengthened by
+   "no FALSE prime, not trimmable, pairwise distinct subs, stored sorted; the negate cache maps literals to literals";
+   in compress the Or of two non-FALSE handles living at a leaf is decided by the terminal cases and is never FALSE;
+   in normalize_to the negation of a literal is a literal, so the one-element partition is never allocated) and of the
+   static step (RedFinal.v: positional + partition invariants force the shape {(literal x, s1), (literal not-x, s2)}). *)
+Theorem C07_reduced_reachable :
+  forall fuel ops s outs,
+    run_from fuel rinit ops = (s, outs) -> run_ok fuel rinit ops = true -> (4 * length ops + 3 < fuel)%nat ->
+    reduced_ok (rm s) = true.
+Proof. exact history_reduced. Qed.
+Print Assumptions C07_reduced_reachable.
+
+Theorem C07_canonical :
+  forall fuel ops s outs,
+    run_from fuel rinit ops = (s, outs) -> run_ok fuel rinit ops = true -> (4 * length ops + 3 < fuel)%nat ->
+    (forall a b, validh (rm s) a -> validh (rm s) b -> (forall sg, den (rm s) a sg = den (rm s) b sg) -> a = b) /\
+    (forall i j, (forall sg, feval sg (frm s i) = feval sg (frm s j)) -> hnd s i = hnd s j).
+Proof. exact history_canonical_full. Qed.
+Print Assumptions C07_canonical.
+
+(* the earlier conditional form is now a corollary (its hypothesis reduced_ok is redundant) *)
 Theorem C07_canonical_history_partial :
   forall fuel ops s outs i j,
     run_from fuel rinit ops = (s, outs) -> run_ok fuel rinit ops = true -> (4 * length ops + 3 < fuel)%nat ->
     reduced_ok (rm s) = true ->
     (forall sg, feval sg (frm s i) = feval sg (frm s j)) -> hnd s i = hnd s j.
-Proof. exact history_canonical. Qed.
+Proof. intros fuel ops s outs i j E Hok Hf _ H. exact (proj2 (history_canonical_full fuel ops s outs E Hok Hf) i j H). Qed.
 Print Assumptions C07_canonical_history_partial.
 
 (* ---- non-vacuity ------------------------------------------------------------------------------------ *)
